@@ -68,10 +68,10 @@ def jobs_default():
 # ---------------------------------------------------------------- worker
 
 def worker(argv):
-    """worker PROFILE BASE START STRIDE COUNT DEADLINE OUTFILE"""
+    """worker PROFILE BASE START STRIDE COUNT DEADLINE OUTFILE TIER"""
     import faulthandler
     from . import gen, world
-    prof, base, start, stride, count, deadline, outfile = argv
+    prof, base, start, stride, count, deadline, outfile, tier = argv
     base, start, stride, count = int(base), int(start), int(stride), int(count)
     deadline = float(deadline)
     agg = new_agg()
@@ -83,7 +83,7 @@ def worker(argv):
             break
         seed = base + start + i * stride
         faulthandler.dump_traceback_later(300, exit=True)
-        plan = gen.gen_plan(prof, seed)
+        plan = gen.gen_plan(prof, seed, tier)
         try:
             res = world.run_plan(plan)
         except Exception as e:  # harness failure: reported, never a verdict
@@ -285,7 +285,7 @@ def _brief(o):
 
 # ---------------------------------------------------------------- check
 
-def run_batch(prof, base, total, jobs, cap_s, tag):
+def run_batch(prof, base, total, jobs, cap_s, tag, tier="quick"):
     os.makedirs(OUT, exist_ok=True)
     tmpd = os.path.join(OUT, "tmp-%s-%d" % (tag, os.getpid()))
     os.makedirs(tmpd, exist_ok=True)
@@ -296,7 +296,7 @@ def run_batch(prof, base, total, jobs, cap_s, tag):
         outf = os.path.join(tmpd, "w%d.json" % j)
         cnt = len(range(j, total, jobs))
         cmd = [sys.executable, "-m", "wavesim.run", "worker", prof, str(base), str(j),
-               str(jobs), str(cnt), repr(deadline), outf]
+               str(jobs), str(cnt), repr(deadline), outf, tier]
         procs.append((subprocess.Popen(cmd, cwd=env.VERIF, env=env.pinned_env(
             {"WAVESIM_REEXEC": "1"}), stdout=subprocess.PIPE, stderr=subprocess.STDOUT), outf))
     agg = new_agg()
@@ -415,7 +415,7 @@ def check(argv):
     if prop == "C18":
         n, fails_, samples = tables.static_check()
         static = {"obligations": n, "failures": fails_[:20], "samples": samples}
-    agg, errors = run_batch(prop, base, total, jobs, cfg["cap_s"], prop)
+    agg, errors = run_batch(prop, base, total, jobs, cfg["cap_s"], prop, tier)
     sweep = None
     if prop == "C18" and not errors:
         sweep, e2 = run_sweep(tier, jobs, cfg["cap_s"])
@@ -430,6 +430,43 @@ def check(argv):
             print("HARNESS-ERROR: seed %s %s\n%s" % (e["seed"], e["error"], e["trace"]))
         write_evidence(prop, tier, seed, agg, static, [], time.time() - t0, errors=True)
         return 2
+    # ---- determinism audit: a sample of this batch's seeds re-executed in a
+    # fresh interpreter under another PYTHONHASHSEED must give the same
+    # fingerprints (a mismatch is a harness error, never a verdict)
+    from . import selftest
+    all_seeds = sorted(int(k) for k in agg["fingerprints"])
+    n_audit = 12 if tier == "quick" else 160
+    step = max(1, len(all_seeds) // n_audit)
+    sample = all_seeds[::step][:n_audit]
+    audit = {"seeds_rechecked": len(sample), "mismatches": 0}
+    if sample:
+        chunks = [sample[i::jobs] for i in range(min(jobs, len(sample)))]
+        procs = []
+        for ch in chunks:
+            cmd = [sys.executable, "-m", "wavesim.run", "selftest", "--fps", prop + ":" + tier] + \
+                [str(x) for x in ch]
+            procs.append(subprocess.Popen(cmd, cwd=env.VERIF, env=env.pinned_env(
+                {"PYTHONHASHSEED": "4242", "WAVESIM_REEXEC": "1"}), stdout=subprocess.PIPE,
+                stderr=subprocess.STDOUT))
+        for pr in procs:
+            out, _ = pr.communicate()
+            got = None
+            for ln in out.decode("utf8", "replace").splitlines():
+                if ln.startswith("FPS "):
+                    got = json.loads(ln[4:])
+            if got is None:
+                print("HARNESS-ERROR: determinism audit child failed: " + out.decode("utf8", "replace")[-500:])
+                write_evidence(prop, tier, seed, agg, static, [], time.time() - t0, errors=True)
+                return 2
+            for k, v in got.items():
+                if agg["fingerprints"].get(k) != v:
+                    audit["mismatches"] += 1
+                    print("HARNESS-ERROR: seed %s is not reproducible (fingerprint differs in a fresh "
+                          "interpreter with another PYTHONHASHSEED)" % k)
+    agg["determinism_audit"] = audit
+    if audit["mismatches"]:
+        write_evidence(prop, tier, seed, agg, static, [], time.time() - t0, errors=True)
+        return 2
     # ---- violations: minimise, write replay, confirm in a fresh process
     known = load_known()
     sigs = {}
@@ -441,7 +478,7 @@ def check(argv):
     os.makedirs(os.path.join(OUT, "replays"), exist_ok=True)
     for sig, seeds in sorted(sigs.items()):
         sd = min(seeds)
-        plan = gen.gen_plan(prop, sd)
+        plan = gen.gen_plan(prop, sd, tier)
         res = world.run_plan(plan)
         vs = [v for v in res["violations"] if (v["property"], v["invariant"]) == sig]
         if not vs:
@@ -579,6 +616,7 @@ def write_evidence(prop, tier, seed, agg, static, violations, wall, errors=False
         "policies": agg["policies"],
         "clients_per_run": agg["clients"],
         "components": COMPONENTS,
+        "determinism_audit": agg.get("determinism_audit", {}),
         "stopped_early_at_wall_cap": bool(agg.get("stopped_early")),
         "fingerprint_of_fingerprints": hashlib.sha256(json.dumps(
             agg["fingerprints"], sort_keys=True).encode()).hexdigest(),
@@ -666,10 +704,11 @@ def one(argv):
 def many(argv):
     from . import gen, world
     prof, start, count = argv[0], int(argv[1]), int(argv[2])
+    tier = argv[3] if len(argv) > 3 else "quick"
     agg = new_agg()
     t0 = time.time()
     for seed in range(start, start + count):
-        plan = gen.gen_plan(prof, seed)
+        plan = gen.gen_plan(prof, seed, tier)
         res = world.run_plan(plan)
         merge_run(agg, plan, res)
         agg["runs"] += 1
